@@ -267,5 +267,26 @@ pub fn worker(ctx: &mut Ctx) {
         }
         ctx.end_case();
     }
+    // every word of the curated dictionary, with the metadata the dictionary holds for it, as a captured token: what a record
+    // of a lint on that word would contain.  (Ids, flags and annotations of 130 k entries go through write -> read once.)
+    {
+        let mut words: Vec<Vec<char>> = dict.words_iter().map(|w| w.to_vec()).collect();
+        words.sort();
+        let mut rep = std::mem::take(&mut ctx.report);
+        for (ci, chunk) in words.chunks(100).enumerate() {
+            if !ctx.mine(ci as u64) {
+                continue;
+            }
+            let toks: Vec<harper_core::FatStringToken> = chunk
+                .iter()
+                .map(|w| harper_core::FatStringToken { content: w.iter().collect(), kind: harper_core::TokenKind::Word(dict.get_word_metadata(w).cloned()) })
+                .collect();
+            let rec = Record::now(RecordKind::Lint { kind: harper_core::linting::LintKind::Spelling, context: toks });
+            check_roundtrip(&mut rep, &[vec![rec]], "memory", &scratch, ci as u64);
+            rep.count("dictionary_words_round_tripped", chunk.len() as u64);
+            rep.nontrivial(fnv_mix(0xD1C7, ci as u64));
+        }
+        ctx.report = rep;
+    }
     let _ = std::fs::remove_dir_all(&scratch);
 }
